@@ -81,6 +81,7 @@ func (h *inFlightRequestsHandler) onOutgoingFrameEnqueued(f *frame.Frame) (InFli
 			f.Header.StreamId = streamId
 		}
 	}
+	verifGate("out.borrowed", int64(streamId))
 	h.inFlightLock.RLock()
 	if len(h.inFlight) == h.maxInFlight {
 		err = fmt.Errorf("%v: too many in-flight requests: %v", h, h.maxInFlight)
@@ -88,9 +89,11 @@ func (h *inFlightRequestsHandler) onOutgoingFrameEnqueued(f *frame.Frame) (InFli
 		err = fmt.Errorf("%v: stream id already in use: %d", h, streamId)
 	}
 	h.inFlightLock.RUnlock()
+	verifGate("out.checked", int64(streamId))
 	if err == nil {
 		var inFlight *inFlightRequest
 		inFlight, err = h.addInFlight(streamId, managedStreamId)
+		verifGate("out.added", int64(streamId))
 		if err == nil {
 			inFlight.startTimeout()
 			return inFlight, nil
@@ -112,15 +115,18 @@ func (h *inFlightRequestsHandler) onIncomingFrameReceived(f *frame.Frame) error 
 		err = fmt.Errorf("%v: unknown stream id: %d", h, streamId)
 	}
 	h.inFlightLock.RUnlock()
+	verifGate("in.lookedup", int64(streamId))
 	if err == nil {
 		if isLastFrame(f) {
 			h.removeInFlight(streamId)
+			verifGate("in.removed", int64(streamId))
 			if inFlight.managedStreamId {
 				if err := h.releaseStreamId(streamId); err != nil {
 					return err
 				}
 			}
 		}
+		verifGate("in.released", int64(streamId))
 		err = inFlight.onFrameReceived(f)
 	}
 	return err
@@ -134,6 +140,7 @@ func (h *inFlightRequestsHandler) addInFlight(streamId int16, managedStreamId bo
 		return nil, fmt.Errorf("%v: handler closed", h)
 	}
 	h.inFlight[streamId] = inFlight
+	verifPoint("inflight.add", int64(streamId), int64(len(h.inFlight)))
 	return inFlight, nil
 }
 
@@ -143,6 +150,7 @@ func (h *inFlightRequestsHandler) removeInFlight(streamId int16) {
 	if _, found := h.inFlight[streamId]; found {
 		delete(h.inFlight, streamId)
 	}
+	verifPoint("inflight.remove", int64(streamId), int64(len(h.inFlight)))
 }
 
 func (h *inFlightRequestsHandler) borrowStreamId() (int16, error) {
@@ -184,6 +192,7 @@ func (h *inFlightRequestsHandler) setClosed() bool {
 
 func (h *inFlightRequestsHandler) close() {
 	if h.setClosed() {
+		verifGate("close.cas", 0)
 		log.Trace().Msgf("%v: closing", h)
 		h.inFlightLock.Lock()
 		for streamId, inFlight := range h.inFlight {
@@ -191,6 +200,7 @@ func (h *inFlightRequestsHandler) close() {
 			inFlight.close(fmt.Errorf("%v: handler closed", h))
 		}
 		h.inFlightLock.Unlock()
+		verifGate("close.drained", 0)
 		streamIds := h.streamIds
 		h.streamIds = nil
 		close(streamIds)
@@ -295,6 +305,7 @@ func (r *inFlightRequest) startTimeout() {
 		case <-r.timeoutCtx.Done():
 			switch r.timeoutCtx.Err() {
 			case context.DeadlineExceeded:
+				verifGate("timer.fire", int64(r.streamId))
 				err := fmt.Errorf("%v: timed out waiting for incoming frames", r)
 				r.close(err)
 			case context.Canceled:
@@ -326,6 +337,7 @@ func (r *inFlightRequest) close(err error) {
 		close(r.incoming)
 		r.err = err
 		r.done = true
+		verifPoint("req.close", int64(r.streamId), 0)
 	}
 	r.lock.Unlock()
 	log.Trace().Msgf("%v: successfully closed", r)
